@@ -86,6 +86,18 @@ func sorted(l []E) []E {
 
 func sameSet(a, b []E) bool { return eq(sorted(a), sorted(b)) }
 
+// subsetOf: every element of a occurs in b, none twice in a.
+func subsetOf(a, b []E) bool {
+	seen := map[E]bool{}
+	for _, e := range a {
+		if seen[e] || !has(b, e) {
+			return false
+		}
+		seen[e] = true
+	}
+	return true
+}
+
 // subseq: sub appears in of in the same relative order.
 func subseq(sub, of []E) bool {
 	i := 0
@@ -277,7 +289,8 @@ func seqSet(s *simrt.Sim) {
 			got := set.AddAll(otherSet(s, l)).ToSlice()
 			nm, want, _ := applyModel(model, l, nil)
 			s.Logf("AddAll(%v) -> %v", l, got)
-			if !eq(got, want) {
+			// ("exactly the elements whose membership changed": a set - the order in which the result lists them is open)
+			if !sameSet(got, want) {
 				bad("AddAll-added", "AddAll(%v) on %v returned %v, want %v", l, model, got, want)
 			}
 			model = nm
@@ -286,7 +299,7 @@ func seqSet(s *simrt.Sim) {
 			got := set.DeleteAll(otherSet(s, l)).ToSlice()
 			nm, _, want := applyModel(model, nil, l)
 			s.Logf("DeleteAll(%v) -> %v", l, got)
-			if !eq(got, want) {
+			if !sameSet(got, want) {
 				bad("DeleteAll-removed", "DeleteAll(%v) on %v returned %v, want %v", l, model, got, want)
 			}
 			model = nm
@@ -308,7 +321,7 @@ func seqSet(s *simrt.Sim) {
 			ga, gd := applied.AddedElements().ToSlice(), applied.DeletedElements().ToSlice()
 			nm, wa, wd := applyModel(model, add, del)
 			s.Logf("Apply(+%v -%v) -> +%v -%v", add, del, ga, gd)
-			if !eq(ga, wa) || !eq(gd, wd) {
+			if !sameSet(ga, wa) || !sameSet(gd, wd) {
 				bad("Apply-diff", "Apply(+%v -%v) on %v returned +%v -%v, want +%v -%v", add, del, model, ga, gd, wa, wd)
 			}
 			if applied.IsEmpty() != (len(wa)+len(wd) == 0) {
@@ -336,7 +349,7 @@ func seqSet(s *simrt.Sim) {
 				bad("Compute-view", "Compute's factory saw %v, model %v", snap, model)
 			}
 			nm, wa, wd := applyModel(model, add, del)
-			if !eq(ga, wa) || !eq(gd, wd) {
+			if !sameSet(ga, wa) || !sameSet(gd, wd) {
 				bad("Compute-diff", "Compute(+%v -%v) on %v returned +%v -%v, want +%v -%v", add, del, model, ga, gd, wa, wd)
 			}
 			model = nm
@@ -347,8 +360,8 @@ func seqSet(s *simrt.Sim) {
 			want := keep(prev, func(e E) bool { return !has(l, e) })
 			now := set.ToSlice()
 			s.Logf("Replace(%v) -> %v, now %v", l, got, now)
-			if !eq(got, want) {
-				if !eq(got, prev) {
+			if !sameSet(got, want) {
+				if !sameSet(got, prev) {
 					bad("Replace-removed", "Replace(%v) on %v returned %v, want the removed elements %v", l, prev, got, want)
 				}
 				// exactly the previous contents: recorded, reported after the rest of the run has been checked
@@ -669,7 +682,9 @@ func seqMap(s *simrt.Sim) {
 		switch s.Weighted(5, 3, 1, 1, 2, 2, 1, 1, 1, 1, 2) {
 		case 10:
 			// the consumer deletes the key it is standing on (and optionally a key still ahead) in the middle of the
-			// iteration: every other live key must still be visited, in order; a key deleted before it was reached is not
+			// iteration: every other live key must still be visited, in order. A key deleted before it was reached may or may
+			// not be visited ("live keys": live when the iteration began - a snapshot - or live when it is reached; the
+			// statement fixes neither)
 			if len(model) == 0 {
 				continue
 			}
@@ -711,7 +726,8 @@ func seqMap(s *simrt.Sim) {
 				completed = m.ForEach(f)
 			}
 			s.Logf("ForEach(reverse=%v) deleting current key %d (and ahead index %d) -> %v", rev, order[at].k, ahead, got)
-			if !kvEq(got, want) || !completed {
+			withAhead := clone2(order)
+			if (!kvEq(got, want) && !kvEq(got, withAhead)) || !completed {
 				bad("Map-ForEach-delete-inside", "ForEach(reverse=%v) over %v whose consumer deletes the current key %d (and the key at iteration index %d) visited %v, expected %v (completed=%v)", rev, order, order[at].k, ahead, got, want, completed)
 			}
 			var nm []kv
@@ -1093,16 +1109,25 @@ func (h *setHist) run(c int, set ds.Set[E], o cop, u int) {
 		ret := h.tick()
 		h.writes[wi].ret = ret
 		changed := private(s, res)
-		var visited []E
-		for _, st := range arg.stamps {
-			visited = append(visited, st.e)
-			ok := has(changed, st.e)
-			h.opA(c, st.t0, st.t1, aIn{kind: ak, e: st.e}, aOut{ok: ok})
-			h.opB(c, st.t0, st.t1, bIn{bk, st.e}, bOut{ok: ok, known: true})
+		// one single-element operation per element of the argument, each taking effect somewhere inside the call (when and
+		// in which order the implementation walks its argument, or whether it walks the receiver instead, is its business)
+		seenArg := map[E]bool{}
+		for _, e := range o.l {
+			if seenArg[e] {
+				continue
+			}
+			seenArg[e] = true
+			ok := has(changed, e)
+			h.opA(c, call, ret, aIn{kind: ak, e: e}, aOut{ok: ok})
+			h.opB(c, call, ret, bIn{bk, e}, bOut{ok: ok, known: true})
 		}
 		h.line(c, call, ret, "%v -> %v", o, changed)
-		if !eq(visited, o.l) || !subseq(changed, o.l) {
-			s.Fail("diff", copNames[o.kind]+"-result", "%v visited %v and returned %v", o, visited, changed)
+		seenRes := map[E]bool{}
+		for _, e := range changed {
+			if !seenArg[e] || seenRes[e] {
+				s.Fail("diff", copNames[o.kind]+"-result", "%v returned %v: an element that was not asked for, or one element twice", o, changed)
+			}
+			seenRes[e] = true
 		}
 	case cApply, cCompute:
 		var m *stampMut
@@ -1145,13 +1170,13 @@ func (h *setHist) run(c int, set ds.Set[E], o cop, u int) {
 			h.opA(c, call, ret, aIn{kind: aCompute, add: add, del: del}, aOut{added: ga, removed: gd, snap: snap})
 			h.line(c, call, ret, "%v saw %v asked +%v -%v -> +%v -%v", o, snap, add, del, ga, gd)
 		}
-		for _, st := range m.add.stamps {
-			h.opB(c, st.t0, st.t1, bIn{bAdd, st.e}, bOut{ok: has(ga, st.e), known: true})
+		for _, e := range add {
+			h.opB(c, call, ret, bIn{bAdd, e}, bOut{ok: has(ga, e), known: true})
 		}
-		for _, st := range m.del.stamps {
-			h.opB(c, st.t0, st.t1, bIn{bDel, st.e}, bOut{ok: has(gd, st.e), known: true})
+		for _, e := range del {
+			h.opB(c, call, ret, bIn{bDel, e}, bOut{ok: has(gd, e), known: true})
 		}
-		if !subseq(ga, add) || !subseq(gd, del) || len(m.add.stamps) != len(add) || len(m.del.stamps) != len(del) {
+		if !subsetOf(ga, add) || !subsetOf(gd, del) {
 			s.Fail("diff", copNames[o.kind]+"-result", "%v asked +%v -%v, returned +%v -%v", o, add, del, ga, gd)
 		}
 	case cReplace:
@@ -1164,18 +1189,11 @@ func (h *setHist) run(c int, set ds.Set[E], o cop, u int) {
 		h.writes[wi].ret = ret
 		removed := private(s, res)
 		h.opA(c, call, ret, aIn{kind: aReplace, add: o.l}, aOut{removed: removed})
-		cleared := ret
-		if len(arg.stamps) > 0 {
-			cleared = arg.stamps[0].t0
-		}
-		h.opB(c, call, cleared, bIn{kind: bClear}, bOut{})
-		for _, st := range arg.stamps {
-			h.opB(c, st.t0, st.t1, bIn{bAdd, st.e}, bOut{}) // whether it was new is not reported
+		h.opB(c, call, ret, bIn{kind: bClear}, bOut{})
+		for _, e := range o.l {
+			h.opB(c, call, ret, bIn{bAdd, e}, bOut{}) // whether it was new is not reported
 		}
 		h.line(c, call, ret, "%v -> %v", o, removed)
-		if len(arg.stamps) != len(o.l) {
-			s.Fail("diff", "Replace-result", "%v visited %d elements", o, len(arg.stamps))
-		}
 	case cIter:
 		var got []E
 		n := 0
